@@ -125,6 +125,9 @@ func (g *g14Grammar) text() string {
 			if alt.pred != nil {
 				sb.WriteString("[" + alt.pred.String() + "] ")
 			}
+			if len(alt.syms) == 0 {
+				sb.WriteString("%empty ")
+			}
 			for _, s := range alt.syms {
 				if s.term > 0 {
 					sb.WriteString(g14Terms[s.term] + " ")
@@ -263,8 +266,17 @@ func g14Gen(r *vRand) *g14Grammar {
 				nt.alts = append(nt.alts, alt)
 			}
 		}
-		// one unconditional terminal alternative keeps every instance productive and non-nullable
+		// one unconditional terminal alternative keeps every instance productive
 		nt.alts = append(nt.alts, g14Alt{syms: []g14Sym{{term: 1 + r.Intn(3)}}})
+		// a genuine empty alternative (plain or under a predicate) in some nonterminals other than the
+		// input: instantiation has to keep it (seeded change C14-r7m2 dropped %empty inside a choice)
+		if k > 0 && r.Intn(3) == 0 {
+			alt := g14Alt{}
+			if len(predNames) > 0 && r.Intn(2) == 0 {
+				alt.pred = g14RandPred(r, predNames, 2)
+			}
+			nt.alts = append(nt.alts, alt)
+		}
 	}
 	return g
 }
@@ -444,7 +456,7 @@ func TestVerifC14Compiler(t *testing.T) {
 	r := vNewRand(vSeed() + 141)
 	n, maxLen := 2500, 4
 	if vTier() == "thorough" {
-		n, maxLen = 40000, 5
+		n, maxLen = 20000, 5
 	}
 	var words [][]int
 	prev := [][]int{{}}
